@@ -69,7 +69,9 @@ func (w *World) AttachFaults(run *explore.Run, only func(c *Call) bool) *[]Injec
 		if len(menu) == 0 {
 			return nil
 		}
-		k := run.Choose("fault:"+c.Verb+":"+c.Kind, len(menu)+1, nil)
+		// keyed by call signature + occurrence, not by position: the order of independent calls may follow Go map
+		// iteration order, which the harness does not own
+		k := run.ChooseKeyed("fault:"+c.Sig(), len(menu)+1)
 		if k == 0 {
 			return nil
 		}
